@@ -24,7 +24,10 @@ def rt(tier):
         combos = [(0, 1, 1, 1), (0, 2, 2, 14), (1, 0, 0, 0), (1, 1, 2, 7), (2, 2, 2, 6), (2, 0, 1, 2), (3, 1, 2, 9), (3, 2, 1, 3)]
     else:
         combos = [(ks, nv, nd, fl) for ks in range(4) for nv in (0, 1, 2) for nd in (0, 1, 2) for fl in range(4 ** nd)]
-    return [{'VF_CASE': 0, 'VF_KS': ks, 'VF_NV': nv, 'VF_ND': nd, 'VF_FL': fl} for (ks, nv, nd, fl) in combos]
+    out = [{'VF_CASE': 0, 'VF_KS': ks, 'VF_NV': nv, 'VF_ND': nd, 'VF_FL': fl} for (ks, nv, nd, fl) in combos]
+    # the same key requested twice with different flags (order-only then plain, single-use then plain, ...)
+    out += [{'VF_CASE': 0, 'VF_KS': ks, 'VF_NV': 1, 'VF_ND': 2, 'VF_FL': fl, 'VF_SAMEDEP': 1} for ks in ((0, 2) if tier == 'quick' else range(4)) for fl in ((1, 2, 4) if tier == 'quick' else range(16))]
+    return out
 OBLIGATIONS = [
     dict(COMMON, name='R1.roundtrip', params_quick=rt('quick'), params_thorough=rt('thorough')),
     dict(COMMON, name='R5.blob-width', params_quick=[{'VF_CASE': 3, 'VF_NV': n} for n in (0, 3, 8, 9)], params_thorough=[{'VF_CASE': 3, 'VF_NV': n} for n in range(0, 16)]),
